@@ -1,2 +1,10 @@
 #!/bin/sh
-exit 0
+# Build the Coq development from files on disk (offline). Full .vo build, no -vos.
+set -e
+cd "$(dirname "$0")"
+mkdir -p .work evidence replays coq/gen
+export PYTHONHASHSEED=0 PYTHONPATH="${RATTR_REPO:-/repo}"
+/venv/bin/python harness/gen_all.py
+cd coq
+coq_makefile -f _CoqProject -o Makefile >/dev/null
+timeout 3000 make -k -j16 2>&1 | tail -20
